@@ -504,7 +504,7 @@ def _check_run(case, run, text):
         shape = [e[0] for e in evs]
         if shape != ["w", "f"]:
             return "%s: expected exactly one write then one flush, got %s" % (
-                where, [e[0] if e[0] != "w" else "w(%d)" % (len(e[2]) if e[1] == "t" else len(e[2]) // 2) for e in evs]), datas
+                mode, ["write" if e[0] == "w" else "flush" if e[0] == "f" else e[1] for e in evs]), datas
         if g["raised"]:
             return "%s: the call raised (%s) after writing to the file" % (where, g["raised"]), datas
         w = evs[0]
